@@ -398,6 +398,14 @@ func init() {
 		}
 		return []*callResult{{G: g, H: c.St.H, Ret: timeV(ns, days, PtrV{}), Panics: c.St.Panics}}
 	}
+	Stubs["(time.Time).UnixNano"] = func(ex *Exec, c *CallCtx) []*callResult {
+		t := c.Args[0].(*StructV)
+		return c.ret(term.Add(term.Mul(term.Sub(t.F[1].(*term.Term), c64(719162)), c64(nsPerDay)), t.F[0].(*term.Term)))
+	}
+	Stubs["(time.Time).Unix"] = func(ex *Exec, c *CallCtx) []*callResult {
+		t := c.Args[0].(*StructV)
+		return c.ret(term.Add(term.Mul(term.Sub(t.F[1].(*term.Term), c64(719162)), c64(86400)), term.UDiv(t.F[0].(*term.Term), c64(1000000000))))
+	}
 	Stubs["(time.Time).UnixMilli"] = func(ex *Exec, c *CallCtx) []*callResult {
 		t := c.Args[0].(*StructV)
 		ms := term.Add(term.Mul(term.Sub(t.F[1].(*term.Term), c64(719162)), c64(86400000)), term.UDiv(t.F[0].(*term.Term), c64(1000000)))
